@@ -1,15 +1,4 @@
-import LitexModel.Stream.Basic
-import LitexModel.Stream.Num
+import LitexModel.Stream.Open
 open Litex Litex.Driver Litex.Stream
-
-def openMachine (args : List String) (hin hout : IO.FS.Stream) : Option (IO Bool) :=
-  match args with
-  | ["pipevalid"] => some (serve (numElem (pipeValid zTok)) hin hout)
-  | ["pipeready"] => some (serve (numElem (pipeReady zTok)) hin hout)
-  | ["wire"] => some (serve (numElem (wire (α := Nat))) hin hout)
-  | ["buffer_vr"] => some (serve (numElem (bufferVR zTok)) hin hout)
-  | ["syncfifo", d] => d.toNat?.map fun d => serve (numElem (syncFifo d zTok)) hin hout
-  | ["syncfifo_buffered", d] => d.toNat?.map fun d => serve (numElem (syncFifoBuffered d zTok)) hin hout
-  | _ => none
 
 def main : IO Unit := mainLoop openMachine (fun _ => none)
